@@ -1,13 +1,12 @@
 (* Generic correspondence driver: each input line is "<function number> <wire>";
    prints the result wire on one line.  Wire syntax: integers and parentheses. *)
-open Model
 
-let rec pos_of_int n = if n = 1 then XH else if n land 1 = 0 then XO (pos_of_int (n lsr 1)) else XI (pos_of_int (n lsr 1))
-let z_of_int n = if n = 0 then Z0 else if n > 0 then Zpos (pos_of_int n) else Zneg (pos_of_int (-n))
-let rec int_of_pos = function XH -> 1 | XO p -> 2 * int_of_pos p | XI p -> 2 * int_of_pos p + 1
-let int_of_z = function Z0 -> 0 | Zpos p -> int_of_pos p | Zneg p -> - (int_of_pos p)
+let rec pos_of_int n = if n = 1 then Model.XH else if n land 1 = 0 then Model.XO (pos_of_int (n lsr 1)) else Model.XI (pos_of_int (n lsr 1))
+let z_of_int n = if n = 0 then Model.Z0 else if n > 0 then Model.Zpos (pos_of_int n) else Model.Zneg (pos_of_int (-n))
+let rec int_of_pos = function Model.XH -> 1 | Model.XO p -> 2 * int_of_pos p | Model.XI p -> 2 * int_of_pos p + 1
+let int_of_z = function Model.Z0 -> 0 | Model.Zpos p -> int_of_pos p | Model.Zneg p -> - (int_of_pos p)
 
-let parse_wire (s : string) (start : int) : wire =
+let parse_wire (s : string) (start : int) : Model.wire =
   let n = String.length s in
   let pos = ref start in
   let rec skip () = if !pos < n && s.[!pos] = ' ' then (incr pos; skip ()) in
@@ -20,17 +19,17 @@ let parse_wire (s : string) (start : int) : wire =
         skip ();
         if s.[!pos] = ')' then incr pos
         else begin items := value () :: !items; loop () end in
-      loop (); WL (List.rev !items)
+      loop (); Model.WL (List.rev !items)
     end else begin
       let b = !pos in
       while !pos < n && s.[!pos] <> ' ' && s.[!pos] <> ')' && s.[!pos] <> '(' do incr pos done;
-      WN (z_of_int (int_of_string (String.sub s b (!pos - b))))
+      Model.WN (z_of_int (int_of_string (String.sub s b (!pos - b))))
     end in
   value ()
 
 let rec print_wire buf = function
-  | WN z -> Buffer.add_string buf (string_of_int (int_of_z z))
-  | WL l -> Buffer.add_char buf '(';
+  | Model.WN z -> Buffer.add_string buf (string_of_int (int_of_z z))
+  | Model.WL l -> Buffer.add_char buf '(';
       List.iteri (fun i x -> if i > 0 then Buffer.add_char buf ' '; print_wire buf x) l;
       Buffer.add_char buf ')'
 
@@ -44,7 +43,7 @@ let () =
         let f = int_of_string (String.sub line 0 sp) in
         let w = parse_wire line (sp + 1) in
         Buffer.clear buf;
-        (try print_wire buf (dispatch (z_of_int f) w)
+        (try print_wire buf (Model.dispatch (z_of_int f) w)
          with Stack_overflow -> Buffer.clear buf; Buffer.add_string buf "(-2)");
         print_string (Buffer.contents buf); print_newline ()
       end
